@@ -247,6 +247,8 @@ class View:
         self.dims = tuple(da.dims)
         self.pos_dims = tuple(d for d in self.dims if d not in ("freq", "dir"))
         self.has_dir = "dir" in self.dims
+        # c.define()d name of the direction bin width of THIS array object, if a contract gave one
+        self.dd_name = getattr(da, "_verif_dd_name", None)
         if self.symbolic:
             self.NF = A.ext(da.extent("freq"))
             self.ND = A.ext(da.extent("dir")) if self.has_dir else None
